@@ -3,6 +3,7 @@
 import json, os
 import vlib
 from vlib import Check, canon
+from checks import opslib
 
 KINDS = json.load(open(os.path.join(os.path.dirname(__file__), "c20_kinds.json")))
 INIT = [2, 3]
@@ -48,6 +49,26 @@ def clipped_column_major(case):
     return str(case.get("kind", "")).endswith("_clipped") and case.get("layout") == "F"
 
 
+def mutable_cases(tier):
+    """Mutable views over the case tables of C03 / C05 (TLC exports): one write per view index."""
+    out = []
+    for c in vlib.tlc_generate("GenViews", "GenViews_" + tier, env={"FAM": "reshape"}, key_extra="reshape", timeout=1400):
+        # nmtools has no zero-dimensional array type: 0-dim sources and reshape targets are outside its universe (as in C03)
+        if c["op"] == "reshape" and c["shapes"][0] and c["args"]["dst"]:
+            out.append(dict(op="mutable_write", shapes=c["shapes"], args=dict(view="reshape", vargs=dict(dst=c["args"]["dst"], parts=[]))))
+    shapes = sorted({tuple(c["shapes"][0]) for c in out})
+    for s in shapes:
+        for v in ("flatten", "ref"):
+            out.append(dict(op="mutable_write", shapes=[list(s)], args=dict(view=v, vargs=dict(dst=[], parts=[]))))
+    for f in ("axis", "multi"):
+        for c in vlib.tlc_generate("GenSlice", "GenSlice_" + tier, env={"FAM": f}, key_extra=f):
+            ps = c["args"]["parts"]
+            # the driver spells one fully specified (start,stop,step) per axis (None-ness is a compile-time property, covered by C05)
+            if len(ps) == len(c["shapes"][0]) and all(p["k"] == "s" and p["start"] and p["stop"] and p["step"] for p in ps):
+                out.append(dict(op="mutable_write", shapes=c["shapes"], args=dict(view="slice", vargs=dict(dst=[], parts=ps))))
+    return out
+
+
 def run(tier, seed):
     ck = Check("C20", tier, seed)
     ck.preds["c20_clipped_column_major"] = clipped_column_major
@@ -84,18 +105,29 @@ def run(tier, seed):
             ck.mismatch(key, kindf, dict(kind=kind, layout=case.get("layout"), init=INIT, h=prefix), m["expect"],
                         {x: ev.get(x) for x in ("ret", "proj", "res")}, what=f"ndarray kind {kind} layout {case.get('layout')}: {m['why']}", driver="drv_ndarray")
         ck.sample(dict(kind=kind, h=hs[min(5, len(hs) - 1)]))
+    # mutable views: a write through the view changes exactly the source element the reference view reads at that index
+    mc = opslib.number(mutable_cases(tier))
+    mdrv = vlib.build_driver("drv_mutable")
+    opslib.run_ops(ck, mdrv, mc, want="all", label="mutable", describe=lambda c, k: f"mutable_{c['args']['view']}: {k}")
+    ck.extra["mutable_view_cases"] = len(mc)
+    ck.sample(mc[len(mc) // 2])
+    total += len(mc)
     ck.nontrivial_count = total
     ck.rule = ("histories = one per explored transition of the array-object machine (TLC; resize to every shape of the scope incl. shapes that exceed a fixed/bounded buffer, "
                "change the dimension or exceed a clipped bound; element writes; copy, assign in both directions, writes to the copy) for 12 ndarray_t shape x buffer kinds "
                "(dynamic / fixed-dim / bounded-dim / constant / clipped shape x dynamic / fixed / bounded buffer) x row- and column-major layout, plus seeded histories; after every "
-               "action: return value, shape, dim, size, every element by logical index and 'buffer is a permutation of the elements' for the object and its copy")
+               "action: return value, shape, dim, size, every element by logical index and 'buffer is a permutation of the elements' for the object and its copy; "
+               "mutable views (mutable_flatten / mutable_reshape / mutable_slice / mutable_ref over the reshape and slice case tables of C03 / C05): for every index of the view a marker is "
+               "written through the view and the set of changed source positions must be exactly the one position the reference view reads there (Denote mutable_write)")
     ck.exhaustive = True
-    ck.assumptions += ["the legacy classes (fixed_ndarray, hybrid_ndarray, dynamic_ndarray), cast and mutable views are not driven by this machine yet",
+    ck.assumptions += ["the legacy classes (fixed_ndarray, hybrid_ndarray, dynamic_ndarray) and cast are not driven by this machine yet",
                        "contents after an accepted resize are not specified by the property: the harness refills the array after every accepted resize"]
     return ck.finish()
 
 
 def replay(rec):
+    if rec["case"].get("op") == "mutable_write":
+        return opslib.replay_ops(rec, "drv_mutable")
     case = dict(rec["case"]); case["id"] = 1
     drv = vlib.build_driver("drv_ndarray")
     wd = os.path.join(vlib.BUILD, "replay"); os.makedirs(wd, exist_ok=True)
